@@ -52,6 +52,20 @@ class Extractor:
             if x.get('kind') == 'VarDecl':
                 self.locals[x['id']] = (x['name'], x['type'].get('desugaredQualType', x['type']['qualType']))
         self.params = self.fn['_params']
+        # counters whose being zero matters to the grammar: those compared with the literal 0 in the loop
+        self.zero_tested = set()
+        for x in walk(self.loop):
+            if x.get('kind') == 'BinaryOperator' and x.get('opcode') in ('>', '<', '==', '!=', '>=', '<='):
+                a, b = x['inner']
+
+                def base(n):
+                    while n.get('kind') in ('ImplicitCastExpr', 'ParenExpr', 'CStyleCastExpr'):
+                        n = n['inner'][0]
+                    return n
+                a, b = base(a), base(b)
+                for u, v in ((a, b), (b, a)):
+                    if u.get('kind') == 'DeclRefExpr' and v.get('kind') == 'IntegerLiteral' and v.get('value') == '0':
+                        self.zero_tested.add(u['referencedDecl']['id'])
         # locals that every iteration assigns before reading them are not part of the loop state
         self.dead = set()
         lb = self.loop['inner'][-1]
@@ -96,15 +110,16 @@ class Extractor:
                 out.append((name, 'undef'))
             elif is_lin(v) and v.is_const():
                 c = v.const
-                big = qt in ('unsigned long', 'long', 'size_t', 'uint64_t', 'int64_t', 'unsigned char', 'uint8_t') and name not in ('state', 'sign', 'ok')
-                if big:
+                big = qt in ('unsigned long', 'long', 'size_t', 'uint64_t', 'int64_t', 'unsigned char', 'uint8_t')
+                if big and did in self.zero_tested:
                     out.append((name, 'zero' if c == 0 else 'pos'))
+                elif big and not (-2 <= c <= 3):
+                    out.append((name, 'any'))
                 else:
                     out.append((name, c))
             elif is_lin(v):
                 lo = s.facts.lower(v)
-                qt_small = name in ('state', 'sign', 'ok')
-                out.append((name, 'pos' if lo >= 1 else 'any'))
+                out.append((name, 'pos' if lo >= 1 and did in self.zero_tested else 'any'))
             else:
                 out.append((name, 'ptr'))
         return tuple(out)
